@@ -40,6 +40,10 @@ def cases(tier, seed):
         for var, pat, fpv in itertools.product(["linear_mean", "fixed+learn", "kiss", "rff", "linear_kernel", "iterative"], ["first", "interior", "random50"], [False, True]):
             yield {"kind": "posterior", "model": "single", "pattern": pat, "order": rnd.choice(orders) if var != "iterative" else ["mask"], "fast_pred_var": fpv, "lik": "gauss", "variant": var, "n": rnd.choice([6, 9]), "rank": 0,
                    "fillvalue_target": False, "seed": rnd.randrange(10**6)}
+        # the model is first used OUTSIDE any policy (policy 'ignore': NaN in, NaN out - not compared), then under a policy
+        for pat, model, fpv, tail in itertools.product(["first", "random50"], ["single", "batch", "mt"], [False, True], [["mask"], ["fill"], ["fill", "mask"]]):
+            yield {"kind": "posterior", "model": model, "pattern": pat, "order": ["ignore"] + tail, "fast_pred_var": fpv, "lik": "gauss" if model != "mt" else "mt", "n": rnd.choice([5, 8]), "rank": 0,
+                   "fillvalue_target": False, "seed": rnd.randrange(10**6)}
         for pat, model in itertools.product(PATTERNS, ["single", "batch", "mt"]):
             yield {"kind": "mll", "model": model, "pattern": pat, "lik": "gauss" if model != "mt" else "mt", "n": rnd.choice([5, 8]), "rank": rnd.choice([0, 1]), "seed": rnd.randrange(10**6)}
         for pat, pol, b in itertools.product(PATTERNS, ["mask", "fill"], [[], [2]]):
@@ -220,6 +224,15 @@ def _posterior(case, ctx, g):
     model.eval()
     results = {}
     for step, pol in enumerate(case["order"]):
+        if pol == "ignore":
+            # a call outside any policy: with NaN targets the outputs are NaN (not compared) - whatever it leaves behind must
+            # not change what the policies give afterwards
+            try:
+                with S.fast_pred_var(case["fast_pred_var"]), torch.no_grad():
+                    model(xs)
+            except Exception:
+                pass
+            continue
         # 'mask' with a batch masks the union over batch elements (documented); 'fill' is per element
         if mt:
             mflat = miss.reshape(-1)
@@ -336,6 +349,22 @@ def _mll(case, ctx, g):
         prior = torch.distributions.Gamma(2.0, 1.5).log_prob(lik.noise).sum(-1)
         ref = logp + prior
         ctx.close("mll_unnormalised", got * nall, ref, "direct", cls="mll:" + case["model"])
+        # the objective of ANOTHER target tensor on the same model (other values, another pattern of missing entries - e.g. a
+        # validation set of targets for the same inputs): the missing entries are those of the tensor handed in
+        if not mt and miss.dim() == 1:
+            y2 = y * 0.7 + 0.4
+            miss2 = torch.roll(miss, 2, -1)
+            if case["pattern"] == "none":
+                miss2 = miss2.clone()
+                miss2[1] = True
+            if not bool(miss2.all()):
+                y2n = y2.clone()
+                y2n[miss2] = float("nan")
+                with S.observation_nan_policy("mask"):
+                    got2 = mll(model(X), y2n)
+                obs2 = ~miss2
+                ref2 = util.mvn_logpdf(y2[obs2], mx[obs2], A[obs2][:, obs2]) + prior
+                ctx.close("mll_unnormalised", got2 * nall, ref2, "direct", cls="mll:" + case["model"] + ":other_target_tensor")
         try:
             with S.observation_nan_policy("fill"):
                 mll(model(X), yn)
